@@ -670,6 +670,14 @@ def c10(out):
             out.violation(f"c10ops case {c}: clause(s) {sorted(bc[c])}", paths.get(c, "n/a"))
     p2(out, "MCCompact.tla", ["MCCompact"] + (["MCCompact_t", "MCCompact_t3"] if out.tier == "thorough" else []))
     p3_compact(out, C10_CLAUSES, {"normal", "valid", "panic"})
+    # unbounded-length argument for Replace's index arithmetic (Apalache, inductive invariant),
+    # bound to the replayed Replace model by TLC (MCReplaceEq)
+    st = core.apalache_inductive(SPEC / "proof" / "ReplaceInd.tla", out.prop)
+    if st["discharged"] != st["total"]:
+        raise ToolError(f"Apalache did not discharge the inductive invariant of ReplaceInd: {st['obligations']}")
+    out.cov["apalache"] = {"spec": "spec/proof/ReplaceInd.tla", "obligations": st["obligations"], "cached": st["cached"],
+                           "checker_cmd": st["checker_cmd"]}
+    p2(out, "MCReplaceEq.tla", ["MCReplaceEq"], coverage=False)
     # step-level conformance of the Compact model with the real clean-up (diagnostic)
     strace = drive(out, "steps")
     sres = core.validate("TraceSteps", strace, out.prop)
@@ -973,7 +981,7 @@ def setup():
     core.build_harness(nounicode=True)
     import subprocess
     bad = 0
-    for d in ("abstract", "impl", "trace", "mc"):
+    for d in ("abstract", "impl", "trace", "mc", "proof"):
         for p in sorted((SPEC / d).glob("*.tla")):
             r = subprocess.run(["java", "-DTLA-Library=" + core.TLA_LIB, "-cp", core.JAVA_CP, "tla2sany.SANY", str(p)],
                                capture_output=True, text=True, cwd=str(p.parent))
